@@ -126,6 +126,44 @@ def post_mutator(ip, ctx, out):
     ip.prove('file/writing-invariant', z3.BoolVal(disk['attrs'].get('writing') is True and not later))
 
 
+# ---- a writer that fails and is then finalised by the interpreter must not look complete
+def invoke_fail_then_finalise(ip, repo, fref, ctx):
+    cls = repo.resolve(CLS)
+    o = ip.call(cls, [], ctx['kwargs'])
+    ip.ghost['created_at'] = len(ip.log)
+    # the writer fails somewhere before its own close(): here, a write that raises
+    ten = Vc('tensor')
+    ip.add_pc(ten != NONE)
+    ip.call(ip.getattr(o, 'set_mpo_tensor'), [0, ten], {})
+    ip.ghost['failed_at'] = len(ip.log)
+    # ... the exception propagates; Python then finalises the object (reference counting / gc):
+    # every finaliser hook the class defines runs
+    for hook in ('__del__',):
+        m = cls.find(hook)
+        if m is not None:
+            try:
+                ip.call(m, [o], {})
+            except PyRaise:
+                pass
+    return o
+
+
+def post_fail_then_finalise(ip, ctx, out):
+    if out.raised('FileExistsError') or out.raised('AssertionError'):
+        return ip.prove('path-accounted', z3.BoolVal(True))
+    if not expect_no_other_exception(ip, out):
+        return
+    o = out.value
+    disk = ip.ghost['disk'][str(o.fields['_filename'])]
+    ip.prove('file/writing-survives-finalisation', z3.BoolVal(disk['attrs'].get('writing') is True),
+             {'finaliser_defined': repo_has_del(ip)})
+
+
+def repo_has_del(ip):
+    cls = ip.repo.resolve(CLS)
+    return cls is not None and cls.find('__del__') is not None
+
+
 # ---- close
 def scen_close(mode):
     def scen(ip, repo):
@@ -246,6 +284,9 @@ def targets(tier='quick'):
     for which in ('set_mpo_tensor', 'set_cap_tensor', 'set_initial_tensor', 'name', 'description', 'set_mpo_tensor(None)'):
         T.append(Target('file/mutator[%s]' % which, CLS + '.set_mpo_tensor', scen_mutator(which), post_mutator, R, PROP,
                         invoke=invoke_mutator, replay=rp('file_protocol')))
+    for mode in ('write', 'overwrite'):
+        T.append(Target('file/fail-then-finalise[%s]' % mode, CLS + '.__init__', scen_ctor(mode, 'f.h5'), post_fail_then_finalise, R, PROP,
+                        invoke=invoke_fail_then_finalise, replay=rp('file_protocol')))
     for mode in ('write', 'overwrite', 'read'):
         T.append(Target('file/close[%s]' % mode, CLS + '.close', scen_close(mode), post_close, R, PROP, invoke=invoke_close,
                         replay=rp('file_protocol')))
